@@ -230,3 +230,16 @@ Proof.
   rewrite site_bump_down by (try assumption; lia).
   repeat split; reflexivity.
 Qed.
+
+(* ---------------- committing a typed prepared slice: RawChunk::set_pos_addr_and_align_from is Arena.commit_pos (typed):
+   re-align, in bump direction, exactly when the element alignment is below the minimum alignment *)
+Theorem commit_pos_refines (c : cfg) m ea x :
+  valid_min_align m -> 0 <= x -> x + m - 1 < W ->
+  AllocSites.commit_pos_from (up c) m x ea = Ok (commit_pos c m ea false x).
+Proof.
+  intros Hm Hx Hb. unfold AllocSites.commit_pos_from, commit_pos. cbn [orb].
+  destruct (ea <? m).
+  - change AllocSites.align_pos with LibArith.align_pos.
+    rewrite align_pos_refines by assumption. reflexivity.
+  - reflexivity.
+Qed.
